@@ -1,6 +1,248 @@
-/-! line protocol for C16 (stub: no model yet) -/
-namespace ObiVerif.Driver.C16
+import ObiVerif.Model.Grep
+import ObiVerif.Model.Annotate
+import ObiVerif.Driver.Util
+/-!
+line protocol for C16
 
-def run (_line : String) : String := "bad-op"
+```
+grep  <grep options> | <records> | <oracle table>      -> keep=<one of 1 0 F per record>
+annot <grep options> <annot options> | <records> | <oracle table>
+                                                        -> one of out:<record> absent panic fatal per record
+class <hex key1> <hex key2> <hex na> | <records>        -> <hex v1>,<hex v2> per record
+```
+records: `<rec> ; <rec> ; …`, a record being `<hex id>,<hex seq>,<attrs>` optionally followed by
+` + <rec>` (its mate); attrs: `-` or `<hex key>=<val>;…`, val: `s<hex>` `i<int>` `b0` `b1`
+`f<trunc>~<hex shown>`.  The oracle table gives the verdicts of the real libraries (`regexp`, gval,
+obitax, obiapat) as data; a verdict the model asks for and the table lacks makes the result
+`oracle-miss` (the model is run with both defaults and the two results compared).
+-/
+namespace ObiVerif.Driver.C16
+open ObiVerif.Grep ObiVerif.Annotate ObiVerif.Driver
+
+def asciiStr (l : List UInt8) : Option String :=
+  if l.all (· < 128) then some (String.ofList (l.map fun b => Char.ofNat b.toNat)) else none
+
+def unhexS (s : String) : Option String := (unhex s).bind asciiStr
+
+def hexS (s : String) : String := hex (bytes s)
+
+def parseVal (s : String) : Option AVal :=
+  match s.toList with
+  | 's' :: t => (unhexS (String.ofList t)).map .str
+  | 'i' :: t => (String.ofList t).toInt?.map .int
+  | ['b', '0'] => some (.bool false)
+  | ['b', '1'] => some (.bool true)
+  | 'f' :: t =>
+    match (String.ofList t).splitOn "~" with
+    | [a, b] => do
+      let n ← a.toInt?
+      let sh ← unhexS b
+      pure (.flt sh n)
+    | _ => none
+  | _ => none
+
+def showVal : AVal → String
+  | .str s => "s" ++ hexS s
+  | .int n => "i" ++ toString n
+  | .bool b => if b then "b1" else "b0"
+  | .flt sh t => "f" ++ toString t ++ "~" ++ hexS sh
+
+def parseAttrs (s : String) : Option (List (String × AVal)) :=
+  if s = "-" then some [] else
+  (s.splitOn ";").mapM fun kv =>
+    match kv.splitOn "=" with
+    | [k, v] => do
+      let k ← unhexS k
+      let v ← parseVal v
+      pure (k, v)
+    | _ => none
+
+def parseRec (s : String) : Option Rec :=
+  match s.splitOn "," with
+  | [i, q, a] => do
+    let id ← unhexS i
+    let seq ← unhex q
+    let attrs ← parseAttrs a
+    pure { id := id, seq := seq, attrs := attrs }
+  | _ => none
+
+def insKV (kv : String × AVal) : List (String × AVal) → List (String × AVal)
+  | [] => [kv]
+  | x :: xs => if kv.1 ≤ x.1 then kv :: x :: xs else x :: insKV kv xs
+
+def showAttrs (a : List (String × AVal)) : String :=
+  if a.isEmpty then "-" else
+  ";".intercalate ((a.foldr insKV []).map fun kv => hexS kv.1 ++ "=" ++ showVal kv.2)
+
+def showRec (r : Rec) : String := hexS r.id ++ "," ++ hex r.seq ++ "," ++ showAttrs r.attrs
+
+/-- a record and its optional mate -/
+def parsePair (s : String) : Option (Rec × Option Rec) :=
+  match s.splitOn " + " with
+  | [a] => (parseRec a.trimAscii.toString).map fun r => (r, none)
+  | [a, b] => do
+    let r ← parseRec a.trimAscii.toString
+    let m ← parseRec b.trimAscii.toString
+    pure (r, some m)
+  | _ => none
+
+def parseRecs (s : String) : Option (List (Rec × Option Rec)) :=
+  if s.trimAscii.toString = "" then some [] else (s.splitOn " ; ").mapM parsePair
+
+/-- the oracle table: `key:verdict` tokens, key containing no space -/
+def parseTable (s : String) : List (String × String) :=
+  (words s).filterMap fun w =>
+    match (w.splitOn ":").reverse with
+    | v :: rest => some (":".intercalate rest.reverse, v)
+    | [] => none
+
+structure Tab where
+  t : List (String × String)
+  dflt : Bool
+
+def Tab.bool (T : Tab) (k : String) : Bool :=
+  match T.t.lookup k with
+  | some "1" => true
+  | some "0" => false
+  | _ => T.dflt
+
+def grepOracles (T : Tab) : Grep.Oracles where
+  matchRe p s := T.bool ("re:" ++ hexS p ++ ":" ++ hex s)
+  evalBool e r :=
+    match T.t.lookup ("eb:" ++ hexS e ++ ":" ++ showRec r) with
+    | some "1" => some true
+    | some "0" => some false
+    | some "E" => none
+    | _ => if T.dflt then some true else none
+  subCladeOf t r := T.bool ("txi:" ++ toString t ++ ":" ++ showRec r)
+  subCladeOfSlot s r := T.bool ("txs:" ++ hexS s ++ ":" ++ showRec r)
+  hasRank k r := T.bool ("txr:" ++ hexS k ++ ":" ++ showRec r)
+  apat p e both indel r :=
+    T.bool ("ap:" ++ hexS p ++ ":" ++ toString e ++ (if both then "b" else "f") ++ (if indel then "i" else "n") ++ ":" ++ showRec r)
+
+def annotOracles (T : Tab) : Annotate.Oracles where
+  evalExpr e r :=
+    match T.t.lookup ("ev:" ++ hexS e ++ ":" ++ showRec r) with
+    | some "E" => none
+    | some v => (parseVal v).orElse fun _ => if T.dflt then some (.str "?") else none
+    | none => if T.dflt then some (.str "?") else none
+
+/-- Go map assignment on an ordered association list kept sorted by key -/
+def mapPut (k v : String) : List (String × String) → List (String × String)
+  | [] => [(k, v)]
+  | x :: xs => if k = x.1 then (k, v) :: xs else if k < x.1 then (k, v) :: x :: xs else x :: mapPut k v xs
+
+structure Opts where
+  g : GrepOpts := {}
+  a : AnnotOpts := {}
+  paired : Bool := false
+  mode : String := "forward"
+
+def pair2 (s : String) : Option (String × String) :=
+  match s.splitOn ":" with
+  | [a, b] => do
+    let a ← unhexS a
+    let b ← unhexS b
+    pure (a, b)
+  | _ => none
+
+def parseOpt (o : Opts) (w : String) : Option Opts :=
+  match w.splitOn "=" with
+  | ["v"] => some { o with g := { o.g with invert := true } }
+  | ["indel"] => some { o with g := { o.g with patternIndel := true } }
+  | ["fwd"] => some { o with g := { o.g with patternOnlyForward := true } }
+  | ["paired"] => some { o with paired := true }
+  | ["clear"] => some { o with a := { o.a with clearAll := true } }
+  | ["len"] => some { o with a := { o.a with setSeqLength := true } }
+  | ["l", x] => x.toInt?.map fun n => { o with g := { o.g with minLength := n } }
+  | ["L", x] => x.toInt?.map fun n => { o with g := { o.g with maxLength := n } }
+  | ["c", x] => x.toInt?.map fun n => { o with g := { o.g with minCount := n } }
+  | ["C", x] => x.toInt?.map fun n => { o with g := { o.g with maxCount := n } }
+  | ["pe", x] => x.toInt?.map fun n => { o with g := { o.g with patternError := n } }
+  | ["i", x] => x.toInt?.map fun n => { o with g := { o.g with notBelongTaxa := o.g.notBelongTaxa ++ [n] } }
+  | ["s", x] => (unhexS x).map fun s => { o with g := { o.g with seqPatterns := o.g.seqPatterns ++ [s] } }
+  | ["D", x] => (unhexS x).map fun s => { o with g := { o.g with defPatterns := o.g.defPatterns ++ [s] } }
+  | ["I", x] => (unhexS x).map fun s => { o with g := { o.g with idPatterns := o.g.idPatterns ++ [s] } }
+  | ["A", x] => (unhexS x).map fun s => { o with g := { o.g with requiredAttrs := o.g.requiredAttrs ++ [s] } }
+  | ["p", x] => (unhexS x).map fun s => { o with g := { o.g with predicates := o.g.predicates ++ [s] } }
+  | ["r", x] => (unhexS x).map fun s => { o with g := { o.g with belongTaxa := o.g.belongTaxa ++ [s] } }
+  | ["rank", x] => (unhexS x).map fun s => { o with g := { o.g with requiredRanks := o.g.requiredRanks ++ [s] } }
+  | ["ap", x] => (unhexS x).map fun s => { o with g := { o.g with approxPatterns := o.g.approxPatterns ++ [s] } }
+  | ["a", x] => (pair2 x).map fun kv => { o with g := { o.g with attrPatterns := mapPut kv.1 kv.2 o.g.attrPatterns } }
+  | ["idl", x] =>
+      if x = "-" then some { o with g := { o.g with idList := some [] } }
+      else ((x.splitOn ",").mapM unhexS).map fun ids => { o with g := { o.g with idList := some ids } }
+  | ["pm", x] => some { o with mode := x }
+  | ["setid", x] => (unhexS x).map fun s => { o with a := { o.a with setId := s } }
+  | ["del", x] => (unhexS x).map fun s => { o with a := { o.a with toBeDeleted := o.a.toBeDeleted ++ [s] } }
+  | ["keep", x] => (unhexS x).map fun s => { o with a := { o.a with keepOnly := o.a.keepOnly ++ [s] } }
+  | ["ren", x] => (pair2 x).map fun kv => { o with a := { o.a with toBeRenamed := mapPut kv.1 kv.2 o.a.toBeRenamed } }
+  | ["tag", x] => (pair2 x).map fun kv => { o with a := { o.a with evalAttribute := mapPut kv.1 kv.2 o.a.evalAttribute } }
+  | ["cut", x] =>
+      match x.splitOn ":" with
+      | [a, b] => do
+        let a ← a.toInt?
+        let b ← b.toInt?
+        pure { o with a := { o.a with cut := (a, b) } }
+      | _ => none
+  | _ => none
+
+def parseOpts (ws : List String) : Option Opts := ws.foldlM parseOpt {}
+
+def runGrep (o : Opts) (recs : List (Rec × Option Rec)) (T : Tab) : String :=
+  let p := cliPredicate (grepOracles T) o.g
+  if o.paired then
+    match parseMode o.mode with
+    | none => "fatal"
+    | some m =>
+      "keep=" ++ String.join (recs.map fun (r, mate) =>
+        match pairedEval m p r mate with
+        | some true => "1"
+        | some false => "0"
+        | none => "F")
+  else
+    "keep=" ++ String.join (recs.map fun (r, _) =>
+      match p.eval r with
+      | some true => "1"
+      | some false => "0"
+      | none => "F")
+
+def runAnnot (o : Opts) (recs : List (Rec × Option Rec)) (T : Tab) : String :=
+  joinSp (recs.map fun (r, _) =>
+    match pipeline (grepOracles T) o.g (annotOracles T) o.a r with
+    | .out r => "out:" ++ showRec r
+    | .absent => "absent"
+    | .panic => "panic"
+    | .fatal => "fatal")
+
+def both (f : Tab → String) (t : List (String × String)) : String :=
+  let a := f ⟨t, false⟩
+  let b := f ⟨t, true⟩
+  if a = b then a else "oracle-miss"
+
+def run (line : String) : String :=
+  match line.splitOn " | " with
+  | [head, recs, tab] =>
+    match words head, parseRecs recs with
+    | "grep" :: ws, some rs =>
+      match parseOpts ws with
+      | some o => both (runGrep o rs) (parseTable tab)
+      | none => "bad-op"
+    | "annot" :: ws, some rs =>
+      match parseOpts ws with
+      | some o => both (runAnnot o rs) (parseTable tab)
+      | none => "bad-op"
+    | _, _ => "bad-op"
+  | [head, recs] =>
+    match words head, parseRecs recs with
+    | ["class", k1, k2, na], some rs =>
+      match unhexS k1, unhexS k2, unhexS na with
+      | some k1, some k2, some na =>
+        joinSp (rs.map fun (r, _) =>
+          let c := dualClass k1 k2 na r
+          hexS c.1 ++ "," ++ hexS c.2)
+      | _, _, _ => "bad-op"
+    | _, _ => "bad-op"
+  | _ => "bad-op"
 
 end ObiVerif.Driver.C16
